@@ -110,7 +110,8 @@ def check_C15(tier_, sd, consts_ok, consts_detail):
         ws_alts = [w, w + " ", w[:-1] if w else "\t", w.replace(" ", "\t", 1) if " " in w else w + " "]
         pre_alts = [p, " " * pb, " " * (pb + 1), " " * max(pb - 1, 0), p.rstrip(), p.rstrip() + "x", p[:-1] if p else "q",
                     " " * len(p), p.upper() if p.upper() != p else p + p]
-        rests = ["", "arg", " arg  ", "a\tb\t", "é　", "TXTPP#run x"]
+        # remainders: plain, trimmed forms, non-ASCII, and every directive look-alike (a continuation is never re-read as a directive)
+        rests = ["", "arg", " arg  ", "a\tb\t", "é　", "TXTPP#run x", "TXTPP#", "TXTPP# text", "TXTPP#  ", "TXTPP#write", "TXTPP#tag T", "-TXTPP#"]
         n = 0
         for wa in ws_alts:
             for pa in pre_alts:
@@ -703,9 +704,30 @@ def check_C12(tier_, sd, consts_ok, consts_detail):
                                                  extra={"bytes": repr(data[:300])}))
         if (a["verdict"], a["F"]) != (b["verdict"], b["F"]) and len(violations) < 5:
             violations.append(proj_violation("C12", "bytes differ from the model", p, a, b, found=False))
-    cov = {"evaluations": n, "distinct_nontrivial": len(nontriv),
+    # the ending is sniffed from the FIRST line whatever its length: first lines around and beyond the 8 KiB reader buffer
+    longp = []
+    for k, flen in enumerate([10, 4000, 8189, 8190, 8191, 8192, 8193, 9000, 16383, 16384, 20000] if tier_ == "quick" else list(range(8180, 8200)) + [4095, 4096, 16383, 16384, 16385, 30000, 70000]):
+        for le in ("\r\n", "\n"):
+            other = "\n" if le == "\r\n" else "\r\n"
+            p = Project("long%d%s" % (k, "c" if le == "\r\n" else "l"))
+            src = "F" * flen + le + "second" + other + "-TXTPP#include inc.txt" + le + "=TXTPP#temp long.tmp" + other + "=body1" + le + "=body2" + other + other + "last" + le
+            p.files = [("/long.txt.txtpp", src.encode()), ("/inc.txt", ("i1" + other + "i2" + le).encode())]
+            p.inputs = ["long.txt"]; p.sched = [0] * 4; p.srcs = ["/long.txt.txtpp"]
+            longp.append(p)
+    louts = [parse_obs(x) for x in run_impl([p.text() for p in longp])]
+    for p, a in zip(longp, louts):
+        le = le_of_source(dict(p.files)["/long.txt.txtpp"])
+        for path in ("/long.txt", "/long.tmp"):
+            data = a["F"].get(path)
+            if a["verdict"] != "ok" or data is None or not le_uniform(le, data) or (le == b"\r\n" and b"\r\n" not in data):
+                if len(violations) < 5:
+                    violations.append(proj_violation("C12", "%s does not use the line ending of the (long) first line of its source" % path, p, a, None,
+                                                     extra={"first_line_length": len(dict(p.files)["/long.txt.txtpp"].split(b"\n")[0]), "bytes_tail": repr((data or b"")[-80:])}))
+            else: classes[("CRLF" if le == b"\r\n" else "LF") + "/long-first-line/ok"] += 1
+    cov = {"evaluations": n + len(longp), "distinct_nontrivial": len(nontriv), "long_first_line_cases": len(longp),
            "rule": "generated projects with endings chosen independently for the first line, later lines, included files, command output, temp bodies and tag contents (CR only before LF, D1); "
                    "every generated file of the implementation is scanned: LF mode => no CR, CRLF mode => every LF preceded by CR and every CR followed by LF; "
+                   "plus sources whose first line is 10 .. 20000 bytes long (around the 8 KiB and 16 KiB buffer sizes), implementation only; "
                    "distinct_nontrivial = distinct (ending, bytes) of generated files with at least one line terminator",
            "scan_distribution": dict(classes), "input_distribution": dist_of(projs), "samples": [repr(x[1][:120]) for x in list(nontriv)[:2]]}
     return {"coverage": cov, "violations": violations}
@@ -733,7 +755,8 @@ def check_C16(tier_, sd, consts_ok, consts_detail):
     esc = []; emeta = []
     for k in range(n):
         r = rng.fork("w%d" % k)
-        ls = [r.choice(["-TXTPP#run echo no", "TXTPP#include x", "plain", "", "  lead (not first)", "TAG1 T2", "é", "x  y", "=TXTPP#"]) for _ in range(1 + r.below(5))]
+        ls = [r.choice(["-TXTPP#run echo no", "TXTPP#include x", "plain", "", "  lead (not first)", "TAG1 T2", "é", "x  y", "=TXTPP#",
+                        "TXTPP#", "TXTPP# text", "TXTPP#write w", "TXTPP#tag TAG1", "TXTPP#temp f", "+TXTPP#", "TXTPP#after a", "TXTPP#run"]) for _ in range(1 + r.below(5))]
         ls[0] = ls[0].lstrip() or "first"
         ls = [l.rstrip() for l in ls]
         le = r.choice(["\n", "\r\n"])
@@ -1078,6 +1101,12 @@ def check_C10(tier_, sd, consts_ok, consts_detail):
         have = {f for f, _ in p.files}
         for f, c in DECOYS:
             if f not in have: p.files.append((f, c))
+    for k, p in enumerate(projs):
+        if k % 5 == 0 and p.srcs:
+            fm = dict(p.files); s0 = p.srcs[0]; d = s0.rsplit("/", 1)[0]
+            fm[d + "/helper.txtpp.md"] = b"hand-written source named by a temp directive\n"
+            fm[s0] = fm[s0] + (b"" if fm[s0].endswith(b"\n") or not fm[s0] else b"\n") + b"~TXTPP#temp helper.txtpp.md\n~overwritten?\n\n"
+            p.files = sorted(fm.items()); p.srcs = list(p.srcs) + [d + "/helper.txtpp.md"]     # it is a source itself
     # half of them start from a built tree so that verify / clean / needed have something to act on
     first = [p for k, p in enumerate(projs) if k % 2 == 0]
     pre = [p.copy() for p in first]
@@ -1340,7 +1369,19 @@ def check_C18(tier_, sd, consts_ok, consts_detail):
         p.inputs = [r.choice([".", "s.txt", "s.txt.txtpp", "sub", "sub/t", "nothing"]) for _ in range(1 + r.below(2))]
         p.sched = None if r.chance(1, 2) else [r.below(4) for _ in range(12)]
         projs.append(p)
-    env = dict(os.environ, VP_WATCHDOG_S="30")
+    # systematic: multi-line directives with non-ASCII prefixes, continuation candidates indented by 0 .. bytes+1 spaces,
+    # then nothing / ASCII / a multi-byte character (byte-offset slicing must stay on character boundaries)
+    kk = 0
+    for pre in ["é ", "—", "«", "　x", "ééé", "é", "a—b "]:
+        nb = len(pre.encode())
+        for nsp in range(0, nb + 2):
+            for tail in ["", "x", "aé", "é", "—"]:
+                for ty in ("run printf x", "write w", "", "temp t.tmp"):
+                    p = Project("sys%d" % kk); kk += 1
+                    src = "  " + pre + "TXTPP#" + ty + "\n  " + " " * nsp + tail + "\n  " + pre.rstrip() + "\nend\n"
+                    p.files = [("/s.txt.txtpp", src.encode())]; p.inputs = ["s.txt"]; p.mode = kk % 4; p.threads = 2; p.sched = None
+                    projs.append(p)
+    env = dict(os.environ, VP_WATCHDOG_S="8")     # a stuck run costs this long (and a process restart); honest runs take milliseconds
     outs = [parse_obs(x) for x in run_impl([p.text() for p in projs], env=env)]
     violations = []; cls = collections.Counter(); nontriv = set()
     for p, a in zip(projs, outs):
@@ -1377,9 +1418,9 @@ def check_C18(tier_, sd, consts_ok, consts_detail):
                                    "how": "in a directory containing a.txt.txtpp"}})
     finally:
         shutil.rmtree(d, ignore_errors=True)
-    cov = {"evaluations": n + len(cli), "distinct_nontrivial": len(nontriv),
+    cov = {"evaluations": len(projs) + len(cli), "distinct_nontrivial": len(nontriv), "systematic_continuation_cases": kk,
            "rule": "robustness stream OUTSIDE the documented domain: random bytes, invalid UTF-8, NUL, lone CR, huge and empty lines, directive lines whose continuation candidates are cut inside multi-byte characters, grammar-aware sources; "
-                   "pre-existing generated files with arbitrary bytes; four modes; 0-16 threads; recursive on/off; controlled and free scheduling; any-thread panic hook + 30 s watchdog in the harness; CLI with -j 0 in every mode; "
+                   "pre-existing generated files with arbitrary bytes; four modes; 0-16 threads; recursive on/off; controlled and free scheduling; any-thread panic hook + 8 s watchdog in the harness; CLI with -j 0 in every mode; "
                    "observation = {ok, err, panic, hang}; distinct_nontrivial = distinct (verdict, mode, source hash)",
            "verdict_classes": dict(cls), "cli_runs": cli, "model_cross_checked": len(mp),
            "samples": [repr(projs[1].files[0][1][:80])]}
@@ -1407,7 +1448,7 @@ def check_C04(tier_, sd, consts_ok, consts_detail):
                            "missing-include": b"%TXTPP#include no_such_file.txt\n",
                            "include-directory": b"%TXTPP#include .\n",
                            "temp-is-directory": b"%TXTPP#temp adir\n%x\n\n",
-                           "temp-txtpp": b"%TXTPP#temp gen.txtpp\n%x\n\n",
+                           "temp-txtpp": (b"%TXTPP#temp gen.txtpp\n%x\n\n" if (k % 2) else b"%TXTPP#temp gen.txtpp.md\n%x\n\n"),
                            "tag-unused": b"%TXTPP#tag NEVERUSED\n%TXTPP#write v\n\n",
                            "tag-twice": b"%TXTPP#tag T1\n%TXTPP#tag T2\n",
                            "invalid-utf8": b"bad \xff\xfe line\n"}.get(fault)
